@@ -172,7 +172,7 @@ def main():
     m = dict(
         version=1,
         setup_cmd="tools/setup.sh",
-        hooks=dict(guard="verif", enable="go build -tags verif (the harness is rebuilt from /repo's working tree by every check)",
+        hooks=dict(guard="verif", enable="go build -tags verif (the harness is rebuilt from /repo's working tree by every check); the encoder-model conformance driver cmd/encdump adds the second tag verifenc (files */verif_enc.go need both tags)",
                    baseline_off_cmd="cd /repo && go test -vet=off -count=1 ./...",
                    source_commits=hooks_commits, add_only=True),
         engines=[dict(name="tlc", path="/opt/veriftools/tla/tla2tools.jar", serves_properties=sorted(CLAIMED),
